@@ -57,8 +57,11 @@ def _gen_op(rng, ds, name=None):
         op['parms'] = rng.choice([dict(PARMS), {'p': 2}, {'zz': 3}, {}])
     elif name == 'get_n_dim_form':
         op['lazy'] = rng.random() < 0.5
+        op['as_scalar'] = rng.random() < 0.3
     elif name == 'reshape_to_n_dims':
         op['sort'] = rng.random() < 0.5
+        op['lazy'] = rng.random() < 0.3
+        op['verbose'] = rng.random() < 0.2
     elif name in ('slice', 'slice_2d'):
         sd, have_list = [], False          # valid requests only: in-range, non-empty, at most one index list
         for lab, sz in zip(labs, sizes):
@@ -77,12 +80,19 @@ def _gen_op(rng, ds, name=None):
                 sd.append({'k': lab, 'v': v})
         op['sd'] = sd
         op['lazy'] = rng.random() < 0.3
+        op['as_scalar'] = rng.random() < 0.2
+        op['verbose'] = rng.random() < 0.2
     elif name == 'reduce_mem':
         k = rng.randint(1, len(labs))
         op['dims'] = sorted(rng.sample(labs, k))
         op['ufunc'] = rng.choice(['mean', 'sum', 'max'])
+        op['dset_name'] = rng.choice([None, None, 'Reduced_Named'])      # a documented keyword of reduce()
+        op['verbose'] = rng.random() < 0.2
     elif name in ('get_unit_values', 'get_sort_order', 'get_dimensionality'):
         op['side'] = rng.choice(['pos', 'spec'])
+        side = pos if op['side'] == 'pos' else spec
+        op['dim_names'] = rng.choice([None, None, [rng.choice(side['labels'])]])
+        op['verbose'] = rng.random() < 0.2
     elif name == 'get_pos_values':
         op['label'] = rng.choice(pos['labels'])
     elif name == 'get_spec_values':
@@ -315,18 +325,26 @@ def _do(op, cx, inp):
             return 'no-results'
         return _dig(hu.get_source_dataset(g['main-Fit_000']))
     if name == 'get_n_dim_form':
-        return _dig(u.get_n_dim_form(lazy=op['lazy']))
+        return _dig(u.get_n_dim_form(lazy=op['lazy'], as_scalar=op.get('as_scalar', False)))
     if name == 'reshape_to_n_dims':
-        return _dig(hu.reshape_to_n_dims(main, get_labels=True, sort_dims=op['sort']))
+        return _dig(hu.reshape_to_n_dims(main, get_labels=True, sort_dims=op['sort'], lazy=op.get('lazy', False),
+                                         verbose=op.get('verbose', False)))
     if name in ('slice', 'slice_2d'):
         sd = {x['k']: _py_sel(x['v']) for x in op['sd']}
-        return _dig(u.slice(sd, ndim_form=(name == 'slice'), lazy=op['lazy']))
+        return _dig(u.slice(sd, ndim_form=(name == 'slice'), lazy=op['lazy'], as_scalar=op.get('as_scalar', False),
+                            verbose=op.get('verbose', False)))
     if name == 'reduce_mem':
-        return _dig(u.reduce(op['dims'], ufunc={'mean': da.mean, 'sum': da.sum, 'max': da.max}[op['ufunc']], to_hdf5=False))
+        kw = {}
+        if op.get('dset_name'):
+            kw['dset_name'] = op['dset_name']
+        return _dig(u.reduce(op['dims'], ufunc={'mean': da.mean, 'sum': da.sum, 'max': da.max}[op['ufunc']], to_hdf5=False,
+                             verbose=op.get('verbose', False), **kw))
     if name == 'get_unit_values':
         if op['side'] == 'pos':
-            return _dig(hu.get_unit_values(u.h5_pos_inds, u.h5_pos_vals, is_spec=False))
-        return _dig(hu.get_unit_values(u.h5_spec_inds, u.h5_spec_vals, is_spec=True))
+            return _dig(hu.get_unit_values(u.h5_pos_inds, u.h5_pos_vals, is_spec=False, dim_names=op.get('dim_names'),
+                                           verbose=op.get('verbose', False)))
+        return _dig(hu.get_unit_values(u.h5_spec_inds, u.h5_spec_vals, is_spec=True, dim_names=op.get('dim_names'),
+                                       verbose=op.get('verbose', False)))
     if name == 'get_pos_values':
         return _dig(u.get_pos_values(op['label']))
     if name == 'get_spec_values':
